@@ -249,6 +249,33 @@ def fclose(a, b, rtol=1e-9, atol=0.0):
     return abs(a - b) <= max(atol, rtol * max(1.0, abs(a), abs(b)))
 
 
+def cond_inf(M):
+    """infinity-norm condition number of a square float matrix (list of rows) by Gauss-Jordan with partial pivoting;
+    inf when singular or not finite.  Used only to scale comparison tolerances (forward error ~ cond * epsilon)."""
+    n = len(M)
+    if n == 0:
+        return 1.0
+    try:
+        A = [[float(x) for x in row] + [1.0 if i == j else 0.0 for j in range(n)] for i, row in enumerate(M)]
+        norm = max(sum(abs(x) for x in row[:n]) for row in A)
+        for j in range(n):
+            p = max(range(j, n), key=lambda i: abs(A[i][j]))
+            if A[p][j] == 0.0 or A[p][j] != A[p][j]:
+                return float("inf")
+            A[j], A[p] = A[p], A[j]
+            piv = A[j][j]
+            A[j] = [x / piv for x in A[j]]
+            for i in range(n):
+                if i != j and A[i][j] != 0.0:
+                    f = A[i][j]
+                    A[i] = [x - f * y for x, y in zip(A[i], A[j])]
+        inv_norm = max(sum(abs(x) for x in row[n:]) for row in A)
+        c = norm * inv_norm
+        return c if c == c else float("inf")
+    except (OverflowError, ZeroDivisionError, ValueError):
+        return float("inf")
+
+
 # --------------------------------------------------------------------------------------------
 # running the two sides
 
